@@ -5,6 +5,16 @@
     closez <n> <errmask> <zmask> <seed>
                                  the same system: which of the n closers are values of zero-size types (zmask) is a matter of
                                  representation; each of them is a registered closer component like any other
+    closew <n> <errmask> <fastmask> <seed>
+                                 the same system under the environment "a closer (not in fastmask) returns only when all n
+                                 closers have been entered" (`scheduleW`); nobody gives up iff the run reaches the return of
+                                 Close                                             → calls=1,1,… done=1,1,… gaveup=0 | stuck
+    cstart <hist> <nops> <sync> <trials> <r>x<m>…
+                                 concurrent starts of different Apps after the app.Settings history `hist` (section 4 of
+                                 Ioc.Conc): every App evaluates `append(ops, globalOptions...)`, then all of them run their
+                                 option loops (`startRendezvous`, with one spare slot behind globalOptions); a runner is
+                                 invoked once by every App that applied the SetComponents option it came in
+                                                        → st=ok.ok… runs=<per runner, apps joined by /> early=0 foreign=<k>
     scan <n> <failmask> <seed>   same for one scanning round; completed appends to errs when main reads it → errs=<k>
     fstart <n> <kinds> <seed>    the first start of a process with one dependency and n tag-carrying components: one scanning
                                  round over n+1 components in which no scanner fails                → errs=0
@@ -36,6 +46,38 @@ def showClose (n : Nat) (s : St) : String :=
   if s.mainPc != 3 then "stuck" else
   "calls=" ++ joinC ((List.range n).map fun i => toString (s.calls i)) ++
   " done=" ++ joinC ((List.range n).map fun i => if s.wpc i == WPc.finished then "1" else "0")
+
+def runFanW (cfg : FanCfg) (n mask fast seed : Nat) : St :=
+  scheduleW cfg n (bitMask mask) (bitMask fast) (40 * (n + 2)) seed init
+
+/-! concurrent starts -/
+
+def parseShape (t : String) : Option (Nat × Nat) :=
+  match t.splitOn "x" with
+  | [r, m] => match r.toNat?, m.toNat? with
+    | some r, some m => if 1 ≤ r ∧ r ≤ 4 ∧ m ≤ 6 then some (r, m) else none
+    | _, _ => none
+  | _ => none
+
+def parseHist (h : String) : Option Nat :=
+  if h == "-" then some 0 else
+  let ks := (h.splitOn ".").map String.toNat?
+  if ks.any (fun k => k.isNone || k == some 0) then none else some ((ks.filterMap id).foldl (· + ·) 0)
+
+def handleCstart (hist nops sync trials : String) (apps : List String) : String :=
+  let shapes := apps.map parseShape
+  match parseHist hist, nops.toNat?, trials.toNat? with
+  | some glen, some nops, some trials =>
+    if shapes.any Option.isNone || shapes.isEmpty || shapes.length > 8 || nops < 1 || nops > 3 || trials < 1 || trials > 1000
+        || glen > 12 || (sync != "0" && sync != "1") || (sync == "1" && glen == 0) then "bad-line" else
+    let shapes := shapes.filterMap id
+    let c := stdCfg false glen (glen + 1) nops shapes.length
+    let s := startRendezvous c (startInit stdHeap (shapes.length + 1))
+    let idx := List.range shapes.length
+    let runs := (idx.zip shapes).map fun (j, sh) => ".".intercalate (List.replicate sh.1 (toString (runsOf c s j)))
+    let foreign := ((idx.zip shapes).map fun (j, sh) => sh.1 * foreignOf c s j).foldl (· + ·) 0
+    "st=" ++ ".".intercalate (shapes.map fun _ => "ok") ++ " runs=" ++ "/".intercalate runs ++ " early=0 foreign=" ++ toString foreign
+  | _, _, _ => "bad-line"
 
 def lofnQueues : Nat → List Op := fun t => if t < 2 then [Op.loadOrStoreFn 1 (10 + t)] else []
 
@@ -155,6 +197,12 @@ def handle (line : String) : String :=
   | ["closez", n, mask, _zmask, seed] =>
     let n := natOr n 0
     showClose n (runFan (closeShape Facts.closeSkel).cfg n (natOr mask 0) (natOr seed 0))
+  | ["closew", n, mask, fast, seed] =>
+    let n := natOr n 0
+    if n > 62 then "bad-line" else
+    let r := showClose n (runFanW (closeShape Facts.closeSkel).cfg n (natOr mask 0) (natOr fast 0) (natOr seed 0))
+    if r == "stuck" then r else r ++ " gaveup=0"
+  | "cstart" :: hist :: nops :: sync :: trials :: apps => handleCstart hist nops sync trials apps
   | ["fstart", n, _kinds, seed] =>
     let s := runFan (scanShape Facts.scanSkel).cfg (natOr n 0 + 1) 0 (natOr seed 0)
     if s.mainPc != 3 then "stuck" else "errs=" ++ toString s.acc
